@@ -65,10 +65,11 @@ class Containers(object):
         return x
 
 
-def render_form(f):
+def render_form(f, nch=2):
     if f['t'] == 'absent':
         return None
-    elems = [('c%d' % c) if n else c for c, n in zip(f['xs'], f['named'])]
+    # named: 0 position, 1 name, 2 negative position (counted from the last of the container's nch channels)
+    elems = [('c%d' % c) if n == 1 else (c - nch if n == 2 else c) for c, n in zip(f['xs'], f['named'])]
     if f['t'] in ('pos', 'name'):
         return elems[0]
     return elems
@@ -156,15 +157,18 @@ def main(chk, replay=None):
             c0, c1, kind, form = st['scn']
             exp = st['out']
             x = C.get([c0, c1], kind)
-            ch = render_form(form)
+            ch = render_form(form, 4 if C.four else 2)
             tol = 2e-6 if kind == 'sample-float32' else 1e-12
             results = {}
             for stat in STATS:
                 before = np.asarray(x.view(np.ndarray)).tobytes()
+                ch_before = repr(ch)
                 lab, obs = check_call(stat, x, ch, exp, tol)
                 if np.asarray(x.view(np.ndarray)).tobytes() != before:
                     lab = 'events-changed-by-the-call'
                     C.cache.clear()
+                elif repr(ch) != ch_before:
+                    lab = 'caller-channel-list-changed'
                 results[stat] = obs
                 chk.evaluations += 1
                 if lab is not None:
